@@ -13,7 +13,8 @@ ANCHORS = ['numdifftools.fornberg:_fd_weights_all', 'numdifftools.fornberg:fd_we
            'numdifftools.fornberg:fd_weights']
 MIN_COUNTERS = dict(quick={'rows_asserted': 3000, 'poly_asserted': 1000, 'fd_weights_row_asserted': 1000},
                     thorough={'rows_asserted': 100000})
-RULE = ('node sets of size 2..14: uniform, random, clustered (u^3), permuted, one-sided, geometric, '
+RULE = ('Node sets also as lists / tuples / ranges of Python ints with a spacing of 50..1e6; in half of the cases the full table of the same stencil has been requested before. ' 
+        'node sets of size 2..14: uniform, random, clustered (u^3), permuted, one-sided, geometric, '
         'integer, huge-offset; x0 inside, outside or exactly on a node; every n < len(x) reachable '
         '(n drawn uniformly). distinct non-trivial = (size, kind, x0 placement, n) with non-uniform or '
         'unsorted nodes and n >= 1')
